@@ -109,7 +109,10 @@ def _check_pairing(c, it, ds, conv, call_ev, var, tag=''):
 def scn_poly(c, ci, how):
     it, ds, conv, conv_name = _setup(c, ci)
     arg = 'v' if how == 'name' else ds._da('v')
+    from pyvc.api import check_unmodified, snapshot
+    snap = snapshot(ds)
     expect_ok(c, 'make_poly_collection returns', lambda: method(it, conv, 'make_poly_collection', arg, cmap='jet'))
+    check_unmodified(c, ds, snap, 'the plotted dataset')
     calls = _collection_call(c)
     c.check('exactly one PolyCollection is built', len(calls) == 1)
     if len(calls) != 1:
